@@ -51,7 +51,7 @@ fn has_any_by_value<'s>(
         // `self` or `self: Self` (a typed receiver like `self: &Self` has no `reference` either)
         Some(syn::FnArg::Receiver(receiver)) => {
             receiver.reference.is_none()
-                && matches!(receiver.ty.as_ref(), syn::Type::Path(ty) if ty.path.is_ident("Self"))
+                && matches!(crate::signature::peel_type(receiver.ty.as_ref()), syn::Type::Path(ty) if ty.path.is_ident("Self"))
         }
         // the by-value `__impl: Impl<EntraitT>` of a fn in an impl block
         Some(syn::FnArg::Typed(pat_type)) if generated => {
